@@ -714,6 +714,11 @@ impl WriterSet {
             self.segment_size,
             self.compression,
         )?;
+        // Offsets restart in the new segment: waiters of appends written to it must not be
+        // satisfied by the (larger) synced offset of the sealed segment. Waiters of the sealed
+        // segment still hold the old channel, whose last value covers them (synced above).
+        let (sync_tx, _) = watch::channel(self.writer.write_offset());
+        self.sync_tx = sync_tx;
         let old_reader = mem::replace(
             &mut self.reader,
             BucketSegmentReader::open(
